@@ -443,7 +443,19 @@ func installHelpers(bin string) error {
 			return err
 		}
 	}
-	return os.Setenv("PATH", bin+string(os.PathListSeparator)+os.Getenv("PATH"))
+	// c19dot is only reachable through a relative PATH element: os/exec finds it and
+	// refuses to run it.
+	rel := "c19relbin"
+	if err := os.MkdirAll(filepath.Join(filepath.Dir(bin), rel), 0o777); err != nil {
+		return err
+	}
+	if err := os.WriteFile(filepath.Join(filepath.Dir(bin), rel, "docker-credential-c19dot"), []byte(helperScriptHead+credsLine("c19dot")), 0o755); err != nil {
+		return err
+	}
+	if err := os.Chdir(filepath.Dir(bin)); err != nil {
+		return err
+	}
+	return os.Setenv("PATH", bin+string(os.PathListSeparator)+rel+string(os.PathListSeparator)+os.Getenv("PATH"))
 }
 
 type best struct {
@@ -616,7 +628,7 @@ func main() {
 			"first_seen":        b.f,
 			"minimal_document":  string(small.text()),
 			"original_document": string(d.text()),
-			"helper_behaviour":  "c19creds=credentials c19tok=<token> c19nf=credentials-not-found c19err=other error c19gone=missing binary c19mix=by host (h0 creds, h1 token, h2 not found, h3 error, else creds)",
+			"helper_behaviour":  "c19creds=credentials c19tok=<token> c19nf=credentials-not-found c19err=other error c19dot=program found only through a relative PATH element (exec phase: os/exec refuses to run it; injected phase: other error) c19gone=missing binary c19mix=by host (h0 creds, h1 token, h2 not found, h3 error, else creds)",
 		})
 	}
 
@@ -674,6 +686,7 @@ func main() {
 			floorC("exec/helper-kind/"+kind, q(5, 50))
 		}
 		floorC("exec/exercised/missing-default-falls-back", q(3, 30))
+		floorC("exec/exercised/unrunnable-default-is-error", q(3, 30))
 	} else {
 		run.Inconclusive("no /bin/sh or scratch not writable: the exec-helper phase (real docker-credential-* programs through ExecHelperWithEnv) did not run")
 	}
